@@ -71,6 +71,10 @@ def bex(rng, aliases, depth=0):
         return f'{a} is {rng.choice(["", "not "])}null'
     if k < 0.90:
         return f'({a} = {rng.randint(0, 3)}) = ({ex(rng, aliases, depth + 1)} > 1)'
+    if k < 0.94:
+        # a comparison with the NULL literal (never true, not the same as IS [NOT] NULL), on either side, for every operator
+        op_ = rng.choice(["=", "!=", "<>", "<", ">="])
+        return f'{a} {op_} null' if rng.random() < 0.7 else f'null {op_} {a}'
     return f'{a} = {rng.randint(0, 3)}'
 
 
